@@ -69,6 +69,10 @@ def get_evaluable_architecture(
             convert_partial_match_to_regex(pattern) for pattern in exclusions
         )
 
+    if regex_exclusions is None:
+        # neither kind of exclusion pattern was given: nothing is excluded
+        regex_exclusions = ()
+
     if external_exclusions:
         regex_external_exclusions = tuple(
             convert_partial_match_to_regex(pattern) for pattern in external_exclusions
